@@ -9,6 +9,7 @@ class C05(ScanProperty):
     THEOREMS = [('Properties.C05', ['C05_selection', 'C05_selection_generic', 'C05_first_among_maximal', 'C05_find_equals_specification',
                                     'C05_mode_okb_sound', 'C05_nonvacuous'])]
     COQ_TARGETS = ['Properties/C05.vo']
+    CAPSTONE = {'quick': 40, 'thorough': 400}      # pipeline model on modes WITH lookaheads (see C01)
     ASSUMPTIONS = ['accepting token types of every automaton are listed in its terminal_ids (mode_okb, checked on every dump)',
                    'token types inside one mode are distinct (known finding D8 otherwise) and below 2^32 (D9)',
                    'lookahead patterns are not nullable']
@@ -248,6 +249,7 @@ class C06(ScanProperty):
     THEOREMS = [('Properties.C06', ['C06_has_transition_is_lookup', 'C06_mode_after_next', 'C06_peek_keeps_state', 'C06_set_mode',
                                     'C06_fresh_iterator_mode0', 'C06_compiled_modes_ok', 'C06_built_transitions_are_configured'])]
     COQ_TARGETS = ['Properties/C06.vo']
+    CAPSTONE = {'quick': 40, 'thorough': 400}      # pipeline model on several modes with transitions (see C01)
     ASSUMPTIONS = ['at least one mode; transitions strictly sorted by token type and leading to existing modes; set_mode to existing modes',
                    'distinct token types inside a mode (D8), token types < 2^32 (D9)']
     RULE = ('mode graphs of 1..4 modes with 0..3 strictly sorted transitions per mode (self transitions, transitions on token types '
@@ -662,6 +664,9 @@ class C01(ScanProperty):
                                      'C01_specification_patterns_are_the_source_patterns'])]
     COQ_TARGETS = ['Properties/C01.vo', 'Properties/C01c.vo']
     CERTS = {'quick': 40, 'thorough': 600}
+    # the capstone's boolean hypotheses and its pipeline model are evaluated on explored configurations here (and only
+    # here: the other iterator properties do not depend on how the automata are numbered)
+    CAPSTONE = {'quick': 60, 'thorough': 600}
 
     def explore(self, rng, tier, rdir, out, replay=None):
         stats = ScanProperty.explore(self, rng, tier, rdir, out, replay)
@@ -972,8 +977,10 @@ class C02Full(C02):
                                                     'C02_compile_mode_size', 'C02_compile_mode_empty_word', 'C02_compile_mode_no_panic',
                                                     'C02_compile_mode_supported', 'C02_compile_la_correct', 'C02_compile_la_no_panic',
                                                     'C02_example_mode']),
+                               ('Properties.C02c', ['C02_registry_assign_denotes', 'C02_registry_assign_spec', 'C02_registry_distinct',
+                                                    'C02_relabelled_pattern_matches_the_same']),
                                ('Properties.C15', ['C02_thompson_correct', 'C02_nfa_matchb_spec', 'C02_built_matchb_spec'])]
-    COQ_TARGETS = ['Properties/C02.vo', 'Properties/C02b.vo', 'Properties/C15.vo']
+    COQ_TARGETS = ['Properties/C02.vo', 'Properties/C02b.vo', 'Properties/C02c.vo', 'Properties/C15.vo']
 
     def explore(self, rng, tier, rdir, out, replay=None, programs=None):
         stats = C02.explore(self, rng, tier, rdir, out, replay, programs)
@@ -1026,7 +1033,69 @@ class C02Full(C02):
                                        'detail': {'modes': modes, 'impl': impl, 'model': v}})
         stats['compile_model_comparisons'] = len(entries)
         stats['compile_model_agree'] = agree
+        self.registry_correspondence(jobs, results, rdir, out, stats, 60 if tier == 'quick' else 600)
         return stats
+
+    @staticmethod
+    def leaves_of(a, acc):
+        k = a['k']
+        if k in ('lit', 'dot', 'cls_unicode', 'cls_perl', 'cls_bracketed'):
+            acc.append(a['s'])
+        elif k in ('rep', 'group'):
+            C02Full.leaves_of(a['a'], acc)
+        elif k in ('alt', 'concat'):
+            for x in a['as']:
+                C02Full.leaves_of(x, acc)
+
+    def registry_correspondence(self, jobs, results, rdir, out, stats, limit):
+        """The implementation's class registry (dump.classes) against Registry.assign evaluated in Coq on the
+        parser's leaves in pipeline order (per mode: the pattern ASTs depth first in pattern order, then the
+        lookahead ASTs), with equality of the printed form."""
+        entries = []
+        for j, r in zip(jobs, results):
+            if r.get('build') != 'ok' or 'asts' not in r:
+                continue
+            occ = []
+            for ma in r['asts']:
+                for pa, la in ma:
+                    self.leaves_of(pa, occ)
+                for pa, la in ma:
+                    if la:
+                        self.leaves_of(la, occ)
+            entries.append((occ, r['dump']['classes'], j['modes']))
+            if len(entries) >= limit:
+                break
+        shards = [entries[k:k + 30] for k in range(0, len(entries), 30)]
+        paths = []
+        for n, sh_ in enumerate(shards):
+            p = os.path.join(rdir, 'registry_%03d.v' % n)
+            with open(p, 'w') as f:
+                f.write('From Scnr Require Import Base Registry.\nOpen Scope N_scope.\nSet Printing Depth 1000000.\nSet Printing Width 1000000.\n')
+                terms = []
+                for occ, _, _ in sh_:
+                    t = clist([clist([str(ord(ch)) for ch in s_]) for s_ in occ])
+                    terms.append('\n (let (ids, reg) := assign (list N) nlist_eqb [] %s in (map N.of_nat ids, reg))' % t)
+                f.write('Eval vm_compute in %s.\n' % clist(terms))
+            paths.append(p)
+        outs = coq_eval_files(paths)
+        agree = 0
+        for sh_, (rc, o), p in zip(shards, outs, paths):
+            if rc != 0:
+                out.broken.append({'what': 'coqc failed on %s' % p, 'detail': o[-2000:]})
+                continue
+            for (occ, classes, modes), v in zip(sh_, parse_coq_value(o)):
+                ids, reg = v
+                impl = [[ord(ch) for ch in s_] for s_ in classes]
+                want_ids = [classes.index(s_) if s_ in classes else -1 for s_ in occ]
+                if reg == impl and list(ids) == want_ids:
+                    agree += 1
+                else:
+                    out.broken.append({'what': 'correspondence: the class registry of the implementation differs from Registry.assign on the '
+                                               'parsed leaves (order of registration or equality of classes)',
+                                       'detail': {'modes': modes, 'impl_classes': classes,
+                                                  'model_classes': [''.join(chr(c) for c in x) for x in reg], 'leaves_in_order': occ}})
+        stats['registry_comparisons'] = len(entries)
+        stats['registry_agree'] = agree
 
 
 ALL['C02'] = C02Full
